@@ -35,6 +35,9 @@ def step (w : W) (toks : List String) : W × String :=
   | ["up"] => ({ w with s := Defra.Repl.step w.s .up }, "ok")
   -- a receiver whose DAG sync cannot complete fails every push exactly like one that is down
   | ["slow"] => ({ w with s := Defra.Repl.step w.s .down }, "ok")
+  -- B does not answer: to A's bookkeeping the same as an unreachable B (the push is given up after the timeout)
+  | ["hang"] => ({ w with s := Defra.Repl.step w.s .down }, "ok")
+  | ["unhang"] => ({ w with s := Defra.Repl.step w.s .up }, "ok")
   | ["fast"] => ({ w with s := Defra.Repl.step w.s .up }, "ok")
   | ["patch", _] => (w, "ok")
   | ["retry"] => let w := { w with s := Defra.Repl.step w.s .retry }; (w, book w)
